@@ -34,3 +34,8 @@ pub fn copy_into_suffix(x: &mut Vec<u8>, n: usize, y: &[u8])
     requires n <= old(x)@.len(), y@.len() == old(x)@.len() - n,
     ensures final(x)@ == old(x)@.subrange(0, n as int) + y@,
 { unimplemented!() }
+
+/// `a != b` on byte slices (listed patch E10 in BlsTimeCrypt::unseal: `PartialEq::ne` for slices has no Verus
+/// specification) — ASSUMED [L-STD]: slice inequality is inequality of content
+#[verifier::external_body]
+pub fn bytes_ne(a: &[u8], b: &[u8]) -> (r: bool) ensures r == (a@ != b@) { unimplemented!() }
